@@ -14,9 +14,11 @@ import (
 	"verif/harness/mon"
 )
 
-func main() {
+func main() { os.Exit(realMain()) }
+
+func realMain() int {
 	if len(os.Args) < 2 {
-		usage()
+		return usage()
 	}
 	// The workloads allocate heavily on a small live heap (the library builds
 	// an error value with a stack trace for every token it offers to a lower
@@ -43,16 +45,16 @@ func main() {
 		}
 	case "run":
 		if len(os.Args) < 4 {
-			usage()
+			return usage()
 		}
 		m := mon.Get(os.Args[2])
 		if m == nil {
 			fmt.Println("INCONCLUSIVE unknown property", os.Args[2])
-			os.Exit(3)
+			return 3
 		}
 		tier := os.Args[3]
 		if tier != "quick" && tier != "thorough" {
-			usage()
+			return usage()
 		}
 		r := mon.NewRun(m.ID, tier, seed, dir)
 		if pf := os.Getenv("VERIF_PPROF"); pf != "" {
@@ -61,27 +63,27 @@ func main() {
 			rc := m.Run(r)
 			pprof.StopCPUProfile()
 			f.Close()
-			os.Exit(rc)
+			return rc
 		}
-		os.Exit(m.Run(r))
+		return m.Run(r)
 	case "replay":
 		if len(os.Args) < 4 {
-			usage()
+			return usage()
 		}
 		m := mon.Get(os.Args[2])
 		if m == nil || m.Replay == nil {
 			fmt.Println("INCONCLUSIVE no replay for", os.Args[2])
-			os.Exit(3)
+			return 3
 		}
 		b, err := os.ReadFile(os.Args[3])
 		if err != nil {
 			fmt.Println("INCONCLUSIVE", err)
-			os.Exit(3)
+			return 3
 		}
 		var v mon.Violation
 		if err := json.Unmarshal(b, &v); err != nil {
 			fmt.Println("INCONCLUSIVE", err)
-			os.Exit(3)
+			return 3
 		}
 		if v.Seed != 0 {
 			seed = v.Seed
@@ -90,18 +92,19 @@ func main() {
 		r.Replay = true
 		m.Replay(r, v.Case)
 		if r.Violations() > 0 {
-			os.Exit(1)
+			return 1
 		}
 		fmt.Println("replay: the case holds on the current tree")
 	default:
 		if h := mon.Internal(os.Args[1]); h != nil {
-			os.Exit(h(os.Args[2:], seed, dir))
+			return h(os.Args[2:], seed, dir)
 		}
-		usage()
+		return usage()
 	}
+	return 0
 }
 
-func usage() {
+func usage() int {
 	fmt.Println("usage: mon run <Cnn> <quick|thorough> | mon replay <Cnn> <file> | mon list")
-	os.Exit(3)
+	return 3
 }
